@@ -3,6 +3,7 @@
 package harness
 
 import (
+	"codeberg.org/TauCeti/mangle-go/ast"
 	"fmt"
 	"strings"
 
@@ -66,14 +67,15 @@ func EvalVariant(r *simrt.Run, v Variant, cfg EvalCfg, setCols func(string, int)
 			res = EvalResult{Stage: stage, Err: err}
 			return
 		}
-		store := NewStore(cfg.Store)
+		var base []ast.Atom
 		if !inline {
 			for _, f := range v.Prog.Facts {
 				if pi := v.Prog.Pred(f.Pred); pi != nil && pi.EDB {
-					store.Add(ToAtom(f))
+					base = append(base, ToAtom(f))
 				}
 			}
 		}
+		store := NewStoreWith(cfg.Store, base)
 		if cfg.Determ {
 			opts = append(opts, engine.WithDeterministicOrder())
 		}
